@@ -554,11 +554,11 @@ pub fn process_events(
     input: InputList,
     context: &mut TransformerContext,
 ) -> Result<(OutputList, Option<BoundingBox>)> {
-    if is_real_svg(&input) {
-        if context.get_top_element().is_none() {
-            // if this is the outermost SVG element, we mark the entire input as a 'real' SVG document
-            context.real_svg = true;
-        }
+    // Only the whole document can be a 'real' SVG document; nested content which happens
+    // to begin with a namespaced <svg> is processed as usual (that element itself is
+    // passed through by `Container`).
+    if context.is_top_level() && is_real_svg(&input) {
+        context.real_svg = true;
         return Ok((input.into(), None));
     }
     let mut output = OutputList::new();
